@@ -94,7 +94,7 @@ def run(res, args):
     if not ok:
         return res.finish()
     rng = common.rng_for(res.seed, "c13")
-    n = 150 if res.tier == "quick" else 1500
+    n = 150 if res.tier == "quick" else 4000
     gens = [gen_case(rng) for _ in range(n)]
     cases = ["eofretry %s %d 1" % (g[0], g[1]) for g in gens]
     impl, model = framing.run_both(res, "eofretry", cases, timeout=3000, shards=14)
